@@ -72,6 +72,14 @@ def table_models(draw):
     if draw(st.booleans()):
         cols[0] = b'MNEM'
         cols = [cols[0]] + [c for c in cols[1:] if c != b'MNEM']
+    if len(cols) >= 3 and draw(st.integers(0, 4)) == 0:
+        # two column mnemonics that differ only in how they are padded (blank / NUL): different mnemonics in the file
+        i = draw(st.integers(1, len(cols) - 1))
+        twin = cols[i].rstrip(b' ').ljust(4, b'\x00')
+        if twin != cols[i] and twin not in cols:
+            j = draw(st.integers(1, len(cols) - 1))
+            if j != i:
+                cols[j] = twin
     nrow = draw(st.integers(0, 8))
     rows, names = [], []
     for _ in range(nrow):
@@ -161,6 +169,7 @@ def check_table(case, cc):
     cc.cls('cell-255-bytes', any(isinstance(v, bytes) and len(v) == 255 for v in flat))
     cc.cls('cell-empty-bytes', any(isinstance(v, bytes) and len(v) == 0 for v in flat))
     cc.cls('table-empty', not rows)
+    cc.cls('table:columns-differing-in-padding-only', len({c.replace(b'\x00', b' ') for c in model['columns']}) < len(model['columns']))
     cc.nt(len(rows) >= 2 and len(model['columns']) >= 3 and (dup or any(isinstance(v, float) for v in flat)))
     cc.sample({'name': model['name'], 'columns': model['columns'], 'rows': [[c['v'] for c in r] for r in rows][:4], 'pr_len': model['pr_len']})
     ref_lr = G.encode_table_lr(model)
